@@ -9,6 +9,7 @@ import (
 	"fmt"
 	"os"
 	"path/filepath"
+	"runtime"
 	"sync"
 	"testing"
 
@@ -43,6 +44,10 @@ type caseC16 struct {
 	// the same functions: contention paths such as TryLock fall-backs are taken).
 	Fan int `json:"fan,omitempty"`
 	Rep int `json:"rep,omitempty"`
+	// TailWriter: while the calls run, another goroutine (the owner of the buffers the shared msg/DST slices were cut from) keeps
+	// rewriting the bytes AROUND the shared slices - before them and in their spare capacity - never the slices themselves. The
+	// callee was handed len(slice) bytes; anything it reads beyond is a data race with that owner.
+	TailWriter bool `json:"tail_writer,omitempty"`
 }
 
 type call struct {
@@ -66,6 +71,7 @@ type env struct {
 	encS     [][]byte
 	backings [][]byte
 	snaps    [][]byte
+	inner    [][2]int // per backing: [start, end) of the shared slice inside it
 }
 
 func buildEnv(c caseC16) (*env, error) {
@@ -91,11 +97,13 @@ func buildEnv(c caseC16) (*env, error) {
 	ev.msg, mb = gen.Place(gen.HexBytes(c.Msg), c.MsgLay)
 	ev.dst, db = gen.Place(gen.HexBytes(c.Dst), c.DstLay)
 	ev.backings = [][]byte{mb, db}
+	ev.inner = [][2]int{{len(mb) - cap(ev.msg), len(mb) - cap(ev.msg) + len(ev.msg)}, {len(db) - cap(ev.dst), len(db) - cap(ev.dst) + len(ev.dst)}}
 	ev.dst2 = ev.dst
 	if c.Dst2 != "" {
 		var db2 []byte
 		ev.dst2, db2 = gen.Place(gen.HexBytes(c.Dst2), c.DstLay)
 		ev.backings = append(ev.backings, db2)
+		ev.inner = append(ev.inner, [2]int{len(db2) - cap(ev.dst2), len(db2) - cap(ev.dst2) + len(ev.dst2)})
 	}
 	for _, b := range ev.backings {
 		ev.snaps = append(ev.snaps, append([]byte(nil), b...))
@@ -267,8 +275,52 @@ func runC16(c caseC16, o *gen.Obs) error {
 			}
 		}(g, order)
 	}
+	stop, writerDone := make(chan struct{}), make(chan struct{})
+	if c.TailWriter {
+		o.Class("tail-writer")
+		go func() {
+			defer close(writerDone)
+			<-start
+			for round := 0; ; round++ {
+				select {
+				case <-stop:
+					return
+				default:
+				}
+				for bi, b := range ev.backings {
+					in := ev.inner[bi]
+					n := in[1] - in[0]
+					for i := range b {
+						if i >= in[0] && i < in[1] {
+							continue // never the shared slice itself
+						}
+						switch round % 3 {
+						case 0:
+							b[i] = byte(n)
+						case 1:
+							b[i] = 0
+						default:
+							b[i] = gen.Canary(i)
+						}
+					}
+				}
+				runtime.Gosched()
+			}
+		}()
+	} else {
+		close(writerDone)
+	}
 	close(start)
 	wg.Wait()
+	close(stop)
+	<-writerDone
+	if c.TailWriter {
+		for bi, b := range ev.backings { // put the surroundings back, the shared slices must be untouched
+			in := ev.inner[bi]
+			copy(b[:in[0]], ev.snaps[bi][:in[0]])
+			copy(b[in[1]:], ev.snaps[bi][in[1]:])
+		}
+	}
 	for g, u := range unstable {
 		if u != "" {
 			return gen.Fail("concurrent/result-differs", "goroutine %d: %s", g, u)
@@ -328,6 +380,7 @@ var c16 = gen.Register(&gen.Check[caseC16]{
 		for i := 0; i < g; i++ {
 			c.Order = append(c.Order, rapid.Permutation(seq(n)).Draw(t, "order"))
 		}
+		c.TailWriter = gen.Chance(t, "tailWriter", 1, 4)
 		switch gen.Pick(t, "load", 12) {
 		case 0: // a swarm: a few hundred goroutines, a short list each
 			if n > 3 {
@@ -367,6 +420,14 @@ var c16 = gen.Register(&gen.Check[caseC16]{
 			rev[i] = ord[len(ord)-1-i]
 		}
 		all.Order = [][]int{ord, rev, ord, rev}
+		for _, fn := range []string{"HashToGroup", "EncodeToGroup", "HashToScalar"} {
+			for _, dl := range []int{18, 300} {
+				for _, fill := range []int{0, 2} {
+					out = append(out, caseC16{E: []pt.Spec{g, g}, S: []string{"05", "07"}, Msg: "616263", Dst: hex.EncodeToString(bytes.Repeat([]byte{'T'}, dl)),
+						DstLay: gen.Layout{Pre: 2, Post: 1, Fill: fill}, MsgLay: gen.Layout{Post: 3, Fill: fill}, Calls: []call{{Fn: fn}}, Order: [][]int{{0}, {0}, {0}, {0}}, Rep: 200, TailWriter: true})
+				}
+			}
+		}
 		// swarms: 400 goroutines x 8 multiplications / subtractions / hashes each (calls get preempted half-way, >128 in flight)
 		for _, fns := range [][]string{{"E.Multiply", "Base.Multiply"}, {"E.Subtract", "E.Add"}, {"HashToGroup", "HashToScalar"}, {"S.Pow", "S.Multiply"}} {
 			sw := caseC16{E: all.E, S: []string{gen.H(new(bigInt).Sub(ref.N, one)), "0123456789abcdef0123456789abcdef0123456789abcdef"}, Msg: "6d", Dst: all.Dst,
@@ -375,7 +436,7 @@ var c16 = gen.Register(&gen.Check[caseC16]{
 		}
 		return append(out, all)
 	},
-	Required: []string{"two-oversize-dsts", "shared-spare-capacity-dst", "goroutines>=2", "goroutines>128", "repeated-lists", "call:HashToGroup", "call:HashToScalar", "call:E.Multiply"},
+	Required: []string{"two-oversize-dsts", "shared-spare-capacity-dst", "goroutines>=2", "goroutines>128", "repeated-lists", "tail-writer", "call:HashToGroup", "call:HashToScalar", "call:E.Multiply"},
 	Run:      runC16,
 })
 
